@@ -82,8 +82,9 @@ theorem C12_host_one_sec_timing_partial {c0 : Int} {evs : List Ev} {h' : Host} {
 /-- **From classification to the wire, over host runs.**  In any state reached by a run from the initial state (`HInv`), let
 a block assemble a query and `async_response` classify `x` as aggregate (`d = false`) or seen-in-the-last-second
 (`d = true`).  Then in *every* continuation of the run, `x` is multicast by that queue's timer callback at some
-`s ∈ [c, c + 500]` (`[c, c + 1200]`), `c` the block's time — or the run ends before that.  No hypothesis about the block
-beyond the loop facts that `HRun` carries. -/
+`s ∈ [c, c + 500]` (`[c, c + 1200]`), `c` the block's time — or the run ends before that, or a later block of the run withdraws
+`x` from that queue (`Ev.qremove`: `async_remove_answers`, its service was unregistered).  No hypothesis about the block
+beyond the loop facts that `HRun` carries; registry changes may occur anywhere in the run. -/
 theorem C12_host_on_wire (d : Bool) {hO hD : List AddRec} {clock : Int} {h : Host} (hI : HInv hO hD clock h)
     {e : Ev} {es : List Ev} {h' : Host} {c' : Int} {r : StepOut} {tr : List (Ev × StepOut)}
     (hr : HRun h clock (e :: es) h' c' ((e, r) :: tr))
@@ -91,7 +92,7 @@ theorem C12_host_on_wire (d : Bool) {hO hD : List AddRec} {clock : Int} {h : Hos
     {x : RecId} (hx : x ∈ (if d then qa.mcastLast else qa.mcastAgg).keys) :
     (∃ p ∈ tr, ∃ s b, p.1 = .qfire s d ∧ Out.ofMcast b ∈ p.2.outs ∧ x ∈ b.keys ∧ e.time ≤ s ∧
         s ≤ e.time + (if d then 1200 else 500)) ∨
-      c' ≤ e.time + (if d then 1200 else 500) := by
+      c' ≤ e.time + (if d then 1200 else 500) ∨ withdrawnInTrace d tr x := by
   cases hr with
   | cons hax hs hrest =>
     obtain ⟨a, hd, hperf⟩ := step_decide hs
@@ -117,14 +118,15 @@ theorem C12_host_on_wire (d : Bool) {hO hD : List AddRec} {clock : Int} {h : Hos
       have e2 := outQP_addl; have e3 := outQP_agg; have e4 := delayQP_addl; have e5 := delayQP_agg
       cases d <;> simp only [qpOf, Bool.false_eq_true, if_false, if_true] <;> omega
     rw [hnum] at hqueued
-    rcases hrest.live d _ _ hI' x _ hqueued with ⟨p, hp, s, b, h1, h2, h3, h4⟩ | ⟨g, hg, _, hD⟩
+    rcases hrest.live d _ _ hI' x _ hqueued with ⟨p, hp, s, b, h1, h2, h3, h4⟩ | ⟨g, hg, _, hD⟩ | hw
     · have ht := hrest.times.2 p hp
       rw [h1] at ht
       exact Or.inl ⟨p, hp, s, b, h1, h2, h3, ht, h4⟩
-    · right
+    · right; left
       have hend := (hrest.inv _ _ hI').q d
       have := hend.not_late hg
       omega
+    · exact Or.inr (Or.inr hw)
 
 /-- **answered once, together** (block level, as `Host.step` does it): whenever a block calls `handle_assembled_query` for an
 address, it is called with *all* packets deferred for that address (plus the packet at hand, if the block is an arrival), and
